@@ -1,6 +1,8 @@
 package props
 
 import (
+	"golang.org/x/tools/go/packages"
+
 	"fmt"
 	"go/ast"
 	"go/token"
@@ -46,6 +48,8 @@ func runC42(c *core.Check) {
 	}
 	c.Floor("C42.bounds", 12)
 	runC42Containment(c)
+	c.Rule("C42.memo-key", "a memo in d2lsp (early return of a remembered value, later store) is keyed by every input its computation reads")
+	c.Note("memo-key: %d functions of memo shape in d2lsp", checkMemoKeys(c, "C42.memo-key", []*packages.Package{pk}, c.P.RepoPkgs()))
 }
 
 // runC42Containment decides the "block contains the position" test of board-at-position by order types.
